@@ -30,6 +30,11 @@ type origin struct {
 	srv     *httptest.Server
 	log     []string
 	partial int
+	// stagger: every other single-range request gets its headers and the first half of the body at once and the rest only after
+	// another request has completed (or 10 ms): concurrent downloads then finish in an order other than the one they began in
+	stagger  bool
+	ranged   int
+	finished int
 }
 
 func newOrigin() *origin {
@@ -61,6 +66,43 @@ func newOrigin() *origin {
 			return
 		}
 		w.Header().Set("ETag", fmt.Sprintf(`"%x"`, simpleHash(b)))
+		o.mu.Lock()
+		stag := o.stagger
+		o.mu.Unlock()
+		var lo, hi int
+		if n, _ := fmt.Sscanf(r.Header.Get("Range"), "bytes=%d-%d", &lo, &hi); stag && n == 2 && !strings.Contains(r.Header.Get("Range"), ",") && lo >= 0 && lo < hi && hi < len(b) && r.Header.Get("If-Match") == "" {
+			o.mu.Lock()
+			o.ranged++
+			mine, seen := o.ranged, o.finished
+			o.mu.Unlock()
+			body := b[lo : hi+1]
+			w.Header().Set("Content-Range", fmt.Sprintf("bytes %d-%d/%d", lo, hi, len(b)))
+			w.Header().Set("Content-Length", fmt.Sprintf("%d", len(body)))
+			w.WriteHeader(206)
+			if mine%2 == 1 {
+				w.Write(body[:len(body)/2])
+				if f, okf := w.(http.Flusher); okf {
+					f.Flush()
+				}
+				for k := 0; k < 20; k++ {
+					o.mu.Lock()
+					done := o.finished > seen
+					o.mu.Unlock()
+					if done {
+						time.Sleep(2 * time.Millisecond) // let the client of that request write what it received
+						break
+					}
+					time.Sleep(500 * time.Microsecond)
+				}
+				w.Write(body[len(body)/2:])
+			} else {
+				w.Write(body)
+			}
+			o.mu.Lock()
+			o.finished++
+			o.mu.Unlock()
+			return
+		}
 		http.ServeContent(w, r, "", time.Time{}, bytes.NewReader(b))
 	}))
 	return o
